@@ -40,7 +40,7 @@ SCALAR_ATTRS = {
     "shape", "dtype", "device", "ndim", "requires_grad", "is_sparse", "is_cuda", "layout", "is_leaf", "grad_fn",
     "batch_shape", "matrix_shape", "__name__", "__class__", "is_square", "batch_dim", "names", "itemsize",
 }
-SCALAR_ATTR_RE = re.compile(r"(^|_)(dim|dims|size|sizes|shape|rank|num_[a-z_]+|n_[a-z]+|upper|name|tol|iter|has_left|is_vector|"
+SCALAR_ATTR_RE = re.compile(r"(^|_)(dim|size|shape|rank|num_[a-z_]+|n_[a-z]+|upper|name|tol|iter|has_left|is_vector|"
                             r"logdet|inv_quad|needs_input_grad|max_iter|jitter_val|method|generate_roots)$")
 # calls whose result never reaches tensor storage (whatever the receiver)
 SCALAR_CALLS = {
@@ -56,8 +56,13 @@ SCALAR_CALLS = {
 CONTAINER_CALLS = {"list", "tuple", "dict", "set", "zip", "enumerate", "reversed", "sorted", "iter", "next", "map", "filter",
                    "chain", "deepcopy_no", "getattr", "items", "get", "pop", "copy", "partial", "setdefault", "OrderedDict",
                    "defaultdict", "frozenset", "product", "super", "vars", "cast", "Size_no"}
+NEW_CONTAINER_CALLS = {"list", "tuple", "dict", "set", "zip", "enumerate", "reversed", "sorted", "map", "filter", "chain",
+                       "OrderedDict", "defaultdict", "frozenset", "product"}
 CONTAINER_MUT = {"append", "extend", "insert", "update", "add", "setdefault", "save_for_backward", "mark_non_differentiable",
-                 "register_hook", "__setitem__", "appendleft"}
+                 "register_hook", "__setitem__", "appendleft", "sort", "reverse", "remove", "clear", "pop", "popitem", "discard",
+                 "__delitem__"}
+# files implementing the cache / settings plumbing: container mutation there is not a change of an operator's matrix
+CONTAINER_MUT_OK_FILES = {"utils/memoize.py", "settings.py", "beta_features.py", "utils/deprecation.py"}
 # in-place methods that the property explicitly allows (values unchanged)
 ALLOWED_INPLACE = {"requires_grad_", "detach_", "retain_grad"}
 MODULE_NAMES = {"torch", "math", "warnings", "np", "numpy", "scipy", "settings", "linear_operator", "itertools", "functools",
@@ -256,6 +261,7 @@ class Tr:
         self.NIL = -1
         self.local_fns = {}     # name -> FnInfo of nested defs
         self.newobj = {}        # var -> True if it certainly names a tensor object created inside this function
+        self.elemnew = {}       # container var -> its elements are objects created in this function
         self.scopes = []        # comprehension scopes: name -> var
         self.elemkind = {}      # container var -> kind of its elements (or ('zip', [kinds]))
         self.stack = [[]]
@@ -339,8 +345,10 @@ class Tr:
             self.kind[v] = self.ann_kind(a.annotation)
         if node.args.vararg:
             self.kind[self.var(node.args.vararg.arg)] = "C"
+            self.newobj[self.var(node.args.vararg.arg)] = True
         if node.args.kwarg:
             self.kind[self.var(node.args.kwarg.arg)] = "C"
+            self.newobj[self.var(node.args.kwarg.arg)] = True
         if fi.cls is not None and allargs and "staticmethod" not in fi.decorators and "classmethod" not in fi.decorators:
             self.kind[0] = "O" if self.W.is_linop_class(fi.cls["name"]) else "X"
         for n in fi.free:
@@ -386,7 +394,13 @@ class Tr:
     s_Import = s_ImportFrom = s_Global = s_Nonlocal = s_Break = s_Continue = s_Pass
 
     def s_Delete(self, s):
-        pass
+        for t in s.targets:
+            if isinstance(t, ast.Subscript):
+                o, ok = self.expr(t.value)
+                if ok in ("C", "N"):
+                    self.container_mut(o, t.value, s.lineno, "container-item-delete")
+                else:
+                    self.emit(("write", o, s.lineno, "subscript-delete"))
 
     def s_Raise(self, s):
         if s.exc is not None:
@@ -421,6 +435,7 @@ class Tr:
                 self.elemkind[x] = self.elemkind[v]
             else:
                 self.elemkind.pop(x, None)
+            self.elemnew[x] = self.elemnew.get(v, False)
         elif isinstance(t, (ast.Tuple, ast.List)):
             for i, e in enumerate(t.elts):
                 if isinstance(e, ast.Starred):
@@ -440,12 +455,38 @@ class Tr:
             o, ok = self.expr(t.value)
             self.expr(t.slice)
             if ok in ("C", "N"):
+                self.container_mut(o, t.value, line, "container-item-store")
                 self.emit(("assign", o, ("join", [o, v])))
                 self.propagate_back(t.value, o)
             else:
                 self.emit(("write", o, line, "subscript-store"))
         elif isinstance(t, ast.Starred):
             self.target(t.value, v, vk, line)
+
+    def container_mut(self, o, recv, line, what):
+        """a python container (list / dict / set) is mutated in place.  If the container object may be one that a
+        caller-owned object holds (an attribute of `self` / of a parameter, a parameter itself, an element of such) this is
+        a write to caller-owned state; containers created inside the function (displays, list(), .copy(), slices,
+        comprehensions, **kwargs) are not."""
+        if o == self.NIL or self.newobj.get(o, False):
+            return
+        if self.fi.rel in CONTAINER_MUT_OK_FILES:
+            return
+        base, attrs = recv, []
+        while isinstance(base, (ast.Attribute, ast.Subscript, ast.Call)):
+            if isinstance(base, ast.Attribute):
+                attrs.append(base.attr)
+                base = base.value
+            elif isinstance(base, ast.Subscript):
+                base = base.value
+            else:
+                base = base.func
+        bname = base.id if isinstance(base, ast.Name) else "?"
+        if bname in ATTR_STORE_OK_OBJ or any(ATTR_STORE_OK.search(a) for a in attrs):
+            return
+        if self.fi.name in ("__init__", "__new__") and bname == "self":
+            return
+        self.emit(("write", o, line, what))
 
     def propagate_back(self, e, o):
         """`e` evaluated to the temporary `o` which has just been extended (container mutation):
@@ -506,6 +547,7 @@ class Tr:
                 self.emit(("assign", x, ("maybeView", x)))
                 self.kind[x] = "U"
             elif k == "C":
+                self.container_mut(x, t, s.lineno, "container-augmented-assignment")
                 self.emit(("assign", x, ("join", [x, v])))
             else:
                 self.emit(("write", x, s.lineno, "augmented-assignment"))
@@ -513,6 +555,7 @@ class Tr:
             o, ok = self.expr(t.value)
             self.expr(t.slice)
             if ok in ("C", "N"):
+                self.container_mut(o, t.value, s.lineno, "container-item-store")
                 self.emit(("assign", o, ("join", [o, v])))
                 self.propagate_back(t.value, o)
             else:
@@ -575,17 +618,18 @@ class Tr:
 
     def iter_target(self, target, it, ik, line):
         ek = self.elemkind.get(it)
+        en = self.elemnew.get(it, False)
         if isinstance(ek, tuple) and isinstance(target, (ast.Tuple, ast.List)) and len(ek[1]) == len(target.elts):
-            for t, (src, k) in zip(target.elts, ek[1]):
+            for j, (t, (src, k)) in enumerate(zip(target.elts, ek[1])):
                 el = self.tmp("e")
                 self.assign(el, ("view", src), k or "U")
-                self.newobj[el] = False
+                self.newobj[el] = bool(isinstance(en, list) and j < len(en) and en[j])
                 self.target(t, el, self.kind[el], line)
             return
         el = self.tmp("e")
         k = "N" if ik == "N" else (ek if isinstance(ek, str) else "U")
         self.assign(el, ("view", it), k)
-        self.newobj[el] = False
+        self.newobj[el] = en is True
         if isinstance(ek, tuple):
             self.kind[el] = "C"
         self.target(target, el, self.kind[el], line)
@@ -660,6 +704,7 @@ class Tr:
         ks = {self.kind.get(v, "U") for v in vs}
         if len(ks) == 1:
             self.elemkind[t] = ks.pop()
+        self.newobj[t] = True
         return t, "C"
 
     e_List = e_Set = e_Tuple
@@ -668,6 +713,7 @@ class Tr:
         vs = [self.expr(x)[0] for x in list(e.keys) + list(e.values) if x is not None]
         t = self.tmp("d")
         self.assign(t, ("join", vs), "C")
+        self.newobj[t] = True
         return t, "C"
 
     def e_Starred(self, e):
@@ -682,6 +728,7 @@ class Tr:
             ek = self.elemkind.get(a if ak == "C" else b)
             if ek is not None:
                 self.elemkind[t] = ek
+            self.newobj[t] = True
             return t, "C"
         if isinstance(e.op, ast.MatMult) or "O" in (ak, bk):
             return self.dunder(e, a, ak, b, bk)
@@ -797,6 +844,7 @@ class Tr:
         vs = [v for v, _ in vks]
         if len(vks) == 1:
             self.elemkind[acc] = vks[0][1]
+            self.elemnew[acc] = bool(self.newobj.get(vks[0][0], False))
         self.emit(("assign", acc, ("join", [acc] + vs)))
         body = ("seq", self.stack.pop())
         self.emit(("while", body))
@@ -836,7 +884,7 @@ class Tr:
                 self.kind[t2] = "C"
             return t2, self.kind[t2]
         if e.attr in ("_args", "_kwargs", "linear_ops", "saved_tensors", "_differentiable_kwargs", "_nondifferentiable_kwargs",
-                      "_memoize_cache", "sizes", "_args_memo"):
+                      "_memoize_cache", "sizes", "dims", "_args_memo"):
             self.kind[t] = "C"
         if re.search(r"linear_op$|^base_linear_op|_lt$|^left_linear_op|^right_linear_op", e.attr):
             self.kind[t] = "O"
@@ -875,6 +923,12 @@ class Tr:
             return self.fresh("N", "n"), "N"
         t = self.tmp("ix")
         if ok == "C":
+            if isinstance(e.slice, ast.Slice):
+                self.assign(t, ("view", o), "C")
+                self.newobj[t] = True            # slicing a list / tuple copies
+                if o in self.elemkind:
+                    self.elemkind[t] = self.elemkind[o]
+                return t, "C"
             self.assign(t, ("view", o), "U")
             self.newobj[t] = False
             return t, "U"
@@ -1051,11 +1105,14 @@ class Tr:
                 return res, "N"
             if nm in CONTAINER_CALLS:
                 self.assign(res, ("join", allv), "C")
+                self.newobj[res] = nm in NEW_CONTAINER_CALLS
                 if nm in ("list", "tuple", "reversed", "sorted", "iter") and len(pos) == 1 and not star:
                     if pos[0][0] in self.elemkind:
                         self.elemkind[res] = self.elemkind[pos[0][0]]
+                    self.elemnew[res] = self.elemnew.get(pos[0][0], False)
                 elif nm == "zip" and not star and not kws:
                     self.elemkind[res] = ("zip", [(v, self.elemkind.get(v) if isinstance(self.elemkind.get(v), str) else None) for v, _ in pos])
+                    self.elemnew[res] = [self.elemnew.get(v, False) for v, _ in pos]
                 elif nm == "enumerate" and len(pos) == 1 and not star:
                     n0 = self.fresh("N", "n")
                     self.elemkind[res] = ("zip", [(n0, "N"), (pos[0][0], self.elemkind.get(pos[0][0]) if isinstance(self.elemkind.get(pos[0][0]), str) else None)])
@@ -1203,25 +1260,33 @@ class Tr:
             self.emit(("write", o, line, f".{nm}"))
             self.assign(res, ("same", o), ok)
             return res, ok
-        if ok in ("C", "N", "F") or nm in CONTAINER_MUT and ok not in ("T", "O"):
+        if ok in ("C", "N", "F") or nm in CONTAINER_MUT and nm not in ("add", "sort") and ok not in ("T", "O"):
             if nm in CONTAINER_MUT:
+                if nm not in ("save_for_backward", "mark_non_differentiable", "register_hook"):
+                    self.container_mut(o, recv_expr if recv_expr is not None else ast.Name(id="?"), line, f"container.{nm}")
                 self.emit(("assign", o, ("join", [o] + allv)))
                 if recv_expr is not None:
                     self.propagate_back(recv_expr, o)
                 self.assign(res, ("same", o), ok)
+                self.newobj[res] = False
                 return res, ok
             if nm in SCALAR_CALLS or nm in ("index", "count"):
                 self.assign(res, ("fresh",), "N")
                 return res, "N"
             if ok != "F" and nm not in W.methods:
                 self.assign(res, ("join", [o] + allv), "C")
+                self.newobj[res] = nm == "copy"
+                if nm == "copy" and o in self.elemkind:
+                    self.elemkind[res] = self.elemkind[o]
                 return res, "C"
-        if nm in PY_CONTAINER_METHODS and ok not in ("T", "O"):
+        if nm in PY_CONTAINER_METHODS and (nm != "sort" or ok == "C") and ok not in ("T", "O"):
             if nm in CONTAINER_MUT:
+                self.container_mut(o, recv_expr if recv_expr is not None else ast.Name(id="?"), line, f"container.{nm}")
                 self.emit(("assign", o, ("join", [o] + allv)))
                 if recv_expr is not None:
                     self.propagate_back(recv_expr, o)
             self.assign(res, ("join", [o] + allv), "C")
+            self.newobj[res] = nm == "copy"
             return res, "C"
         is_pkg = nm in W.methods and ok != "T" and not (self.tensor_module and ok == "U")
         if nm in SCALAR_CALLS or nm in FRESH_ANY:
@@ -1278,7 +1343,8 @@ class Tr:
 RESULT_NOT_SELF = {"_matmul", "_t_matmul"}
 # in-place methods that only change the tensor object's metadata (shape / strides), never its storage
 META_INPLACE = {"unsqueeze_", "squeeze_", "transpose_", "t_", "swapaxes_", "swapdims_", "rename_"}
-PY_CONTAINER_METHODS = {"copy", "items", "get", "pop", "setdefault", "append", "extend", "insert", "update", "keys"}
+PY_CONTAINER_METHODS = {"copy", "items", "get", "pop", "setdefault", "append", "extend", "insert", "update", "keys", "sort", "reverse",
+                        "remove", "clear", "popitem", "discard"}
 FRESH_ANY = {"clone", "__deepcopy__"}
 OP_RETURNS_TENSOR = {"to_dense", "_matmul", "matmul", "_t_matmul", "solve", "_solve", "diagonal", "_diagonal", "inv_quad",
                      "logdet", "sqrt_inv_matmul", "zero_mean_mvn_samples", "_size", "size", "dim", "numel"}
